@@ -313,6 +313,11 @@ class LiteDRAMFIFO(Module):
             dram_cnt     = Signal(port_address_width)
             dram_inc_mod = Signal(max(int(math.log2(data_width_ratio)), 1))
             dram_dec_mod = Signal(max(int(math.log2(data_width_ratio)), 1))
+            # A complete DRAM word can still wait in the Pre-Converter for the write port: it is not
+            # counted in dram_cnt yet but has to go through the DRAM before switching to Bypass mode.
+            dram_pending = Signal()
+            if data_width_ratio > 1:
+                self.comb += dram_pending.eq(pre_converter.source.valid)
 
             self.submodules.fsm = fsm = FSM(reset_state="BYPASS")
             fsm.act("BYPASS",
@@ -353,7 +358,7 @@ class LiteDRAMFIFO(Module):
                 NextValue(dram_cnt, dram_cnt + dram_inc - dram_dec),
 
                 # Switch back to Bypass mode when no remaining DRAM word.
-                If((dram_first == 0) & (dram_cnt == 0),
+                If((dram_first == 0) & (dram_cnt == 0) & ~dram_pending,
                     dram_store.eq(0),
                     If((dram_dec_mod == 0) & (dram_inc_mod == 0), 
                         NextState("BYPASS")
